@@ -209,8 +209,25 @@ type result struct {
 	retMismatch int
 	skipped     []bool
 	doubleClose string
+	skip        string // the run was abandoned (a bounded wait of the harness expired): an outcome, not a verdict
+	sizePolled  bool
 	lat         []time.Duration // gated kinds: gate release -> the call returned
 }
+
+// spinUntil polls cond, yielding, for at most d. Every wait of this harness is bounded: an expiry is an
+// outcome (the scenario was not reached), never by itself a violation.
+func spinUntil(cond func() bool, d time.Duration) bool {
+	deadline := time.Now().Add(d)
+	for !cond() {
+		if time.Now().After(deadline) {
+			return false
+		}
+		runtime.Gosched()
+	}
+	return true
+}
+
+const spinBound = 3 * time.Millisecond
 
 func yield(n int) {
 	for i := 0; i < n; i++ {
@@ -318,7 +335,10 @@ func oneRun(wk, ck int, script []opSpec, plan uint64) result {
 		<-drainDone
 		close(c.quit)
 		if started {
-			<-c.done
+			select {
+			case <-c.done:
+			case <-time.After(5 * time.Second):
+			}
 		}
 	}
 
@@ -334,20 +354,20 @@ func oneRun(wk, ck int, script []opSpec, plan uint64) result {
 	for i := range script {
 		if ck == cOnce && i == 0 {
 			// the consumer enters its receive before the first call starts
-			c.tok <- struct{}{}
-			for c.inRecv.Load() == 0 {
-				runtime.Gosched()
+			select {
+			case c.tok <- struct{}{}:
+				spinUntil(func() bool { return c.inRecv.Load() == 1 }, spinBound)
+				yield(5)
+			case <-time.After(blockBound):
 			}
-			yield(5)
 			close(startW)
 		}
 		if ck == cSizeAtClose && i == len(script)-1 {
 			// the consumer enters its receive before the last call is released
 			select {
 			case c.tok <- struct{}{}:
-				for c.inRecv.Load() == 0 {
-					runtime.Gosched()
-				}
+				// with a buffering implementation the receive may complete at once on an older total
+				spinUntil(func() bool { return c.inRecv.Load() == 1 }, spinBound)
 				yield(5)
 			case <-time.After(blockBound):
 			}
@@ -388,7 +408,13 @@ func oneRun(wk, ck int, script []opSpec, plan uint64) result {
 		}
 		t0 := time.Now()
 		if u.gated {
-			u.gate <- struct{}{}
+			select {
+			case u.gate <- struct{}{}:
+			case <-time.After(blockBound):
+				res.skip = "wrapped-writer-not-at-its-gate"
+				abort()
+				return res
+			}
 		}
 		select {
 		case <-wdone:
@@ -421,9 +447,23 @@ func oneRun(wk, ck int, script []opSpec, plan uint64) result {
 	case ck == cSlow || ck == cOnce:
 		close(c.drain)
 	}
+	// Size() from the consumer goroutine is ordered after the writer's last update of the total only if the
+	// consumer has received the value of the LAST call (a positive count, so that the value identifies the
+	// call); with anything else (not delivered, or an older buffered total taken) the consumer just drains.
+	sizePoll := false
+	if ck == cSizeAtClose {
+		last := len(script) - 1
+		spinUntil(func() bool { return c.inRecv.Load() == 0 }, spinBound)
+		c.mu.Lock()
+		sizePoll = len(script) > 0 && script[last].k > 0 && !skipped[last] && len(c.vals) > 0 && c.vals[len(c.vals)-1] == sizes[last] && c.inRecv.Load() == 0
+		c.mu.Unlock()
+		if !sizePoll {
+			close(c.drain)
+		}
+	}
 	closeGoClosed = true
 	close(closeGo)
-	if ck == cSizeAtClose {
+	if sizePoll {
 		// Close() has been entered; give it time to block in its send, then let the consumer poll Size()
 		select {
 		case <-closing:
@@ -439,7 +479,7 @@ func oneRun(wk, ck int, script []opSpec, plan uint64) result {
 	case <-cdone:
 	case <-time.After(2 * blockBound):
 		res.viol = "Close-blocked-with-a-receiver-waiting"
-		if ck == cSizeAtClose {
+		if sizePoll {
 			res.viol = "close-deadlock-consumer-called-Size-while-Close-was-pending"
 		}
 		res.sizes = sizes
@@ -447,14 +487,21 @@ func oneRun(wk, ck int, script []opSpec, plan uint64) result {
 		res.recv = c.vals
 		return res
 	}
-	<-wexit
+	select {
+	case <-wexit:
+	case <-time.After(5 * time.Second):
+	}
 	select {
 	case <-c.done:
 	case <-time.After(blockBound):
 		// the channel was not closed: the consumer still waits
 		close(c.quit)
-		<-c.done
+		select {
+		case <-c.done:
+		case <-time.After(5 * time.Second):
+		}
 	}
+	res.sizePolled = sizePoll
 	res.recv = c.vals
 	res.closed = c.closed
 	if res.closed {
@@ -535,7 +582,8 @@ func veryLate(delay time.Duration) ([]opSpec, result) {
 	sc := []opSpec{{false, 3, 3, false}, {true, 4, 2, true}, {false, 5, 5, false}}
 	u := &under{script: sc, reached: make([]bool, len(sc)), aborted: make(chan struct{})}
 	pw := ioutil.NewProgressWriter(plainW{u})
-	res := result{sizes: make([]int, len(sc)), skipped: make([]bool, len(sc))}
+	res := result{skipped: make([]bool, len(sc))}
+	sizes := make([]int, len(sc))
 	closing, cdone := make(chan struct{}), make(chan struct{})
 	go func() {
 		for i, op := range sc {
@@ -545,13 +593,24 @@ func veryLate(delay time.Duration) ([]opSpec, result) {
 			} else {
 				pw.Write(make([]byte, op.n))
 			}
-			res.sizes[i] = pw.Size()
+			sizes[i] = pw.Size()
 		}
 		close(closing)
 		pw.Close()
 		close(cdone)
 	}()
-	<-closing
+	select {
+	case <-closing:
+	case <-time.After(5 * time.Second):
+		// three writes with nobody receiving did not return: this is the property ("a Write never blocks")
+		res.viol = "Write-blocked-with-nobody-receiving"
+		go func() {
+			for range pw.Status() {
+			}
+		}()
+		return sc, res
+	}
+	res.sizes = sizes
 	time.Sleep(delay)
 	ch := pw.Status()
 	deadline := time.After(5 * time.Second)
@@ -581,6 +640,96 @@ recv:
 		afterClose(pw, &res)
 	}
 	return sc, res
+}
+
+// stress: a free-running writer (n one-byte writes, then Close) against a consumer that receives as fast as
+// it can. Judged here, by the property's clauses only: no Write may stop making progress (2 s without a
+// completed call), the received values are non-decreasing and never exceed the bytes written so far, the last
+// one is the final total, then the channel is closed.
+func stress(n int) (viol string, received int) {
+	u := &under{script: []opSpec{{false, 1, 1, false}}, reached: make([]bool, 1), aborted: make(chan struct{})}
+	pw := ioutil.NewProgressWriter(plainW{u})
+	var progress atomic.Int64
+	wdone := make(chan struct{})
+	go func() {
+		defer close(wdone)
+		p := []byte{0}
+		for i := 0; i < n; i++ {
+			pw.Write(p)
+			progress.Store(int64(i + 1))
+		}
+		pw.Close()
+	}()
+	type cres struct {
+		n, last int
+		bad     string
+		closed  bool
+	}
+	cdone := make(chan cres, 1)
+	quit := make(chan struct{})
+	go func() {
+		var r cres
+		ch := pw.Status()
+		for {
+			select {
+			case v, ok := <-ch:
+				if !ok {
+					r.closed = true
+					cdone <- r
+					return
+				}
+				if v < r.last && r.bad == "" {
+					r.bad = fmt.Sprintf("received-%d-after-%d", v, r.last)
+				}
+				if w := int(progress.Load()) + 1; v > w && r.bad == "" {
+					r.bad = fmt.Sprintf("received-%d-with-at-most-%d-bytes-written", v, w)
+				}
+				r.last = v
+				r.n++
+			case <-quit:
+				cdone <- r
+				return
+			}
+		}
+	}()
+	lastSeen, lastChange := int64(-1), time.Now()
+	for {
+		select {
+		case <-wdone:
+			var r cres
+			select {
+			case r = <-cdone:
+			case <-time.After(2 * time.Second):
+				close(quit)
+				r = <-cdone
+			}
+			switch {
+			case r.bad != "":
+				return r.bad, r.n
+			case r.last != n:
+				return fmt.Sprintf("last-value-received-%d-is-not-the-final-total-%d", r.last, n), r.n
+			case !r.closed:
+				return "channel-not-closed-after-Close", r.n
+			}
+			return "", r.n
+		case <-time.After(50 * time.Millisecond):
+			if p := progress.Load(); p != lastSeen {
+				lastSeen, lastChange = p, time.Now()
+			} else if time.Since(lastChange) > 2*time.Second {
+				close(quit)
+				r := <-cdone
+				// release the writer, whatever it waits for (best effort; the goroutine may stay behind)
+				go func() {
+					for range pw.Status() {
+					}
+				}()
+				if p == int64(n) {
+					return "Close-blocked-with-the-consumer-receiving", r.n
+				}
+				return fmt.Sprintf("Write-blocked-at-call-%d-with-the-consumer-receiving", p), r.n
+			}
+		}
+	}
 }
 
 var doubleCloseTried atomic.Int32
@@ -685,6 +834,10 @@ func run(e *hk.Env) error {
 	stats := map[string]int{}
 	distinct := map[string]bool{}
 	emit := func(wk, ck int, sc []opSpec, r result) {
+		if r.skip != "" {
+			stats["runs_abandoned_"+r.skip]++
+			return
+		}
 		if r.viol != "" {
 			viol++
 			f := caseFields("E", wk, ck, sc, r)
@@ -755,7 +908,7 @@ func run(e *hk.Env) error {
 					if len(sc) >= 1 && (wk == wPlainGated || wk == wStringGated) {
 						res := oneRun(wk, ck, sc, r.U64())
 						emit(wk, ck, sc, res)
-						if res.viol == "" && len(res.recv) >= 2 {
+						if res.viol == "" && res.sizePolled {
 							stats["size_polled_during_pending_Close_achieved"]++
 						}
 					}
@@ -846,6 +999,27 @@ func run(e *hk.Env) error {
 			e.Case("VIOL", "write-stalls-when-nobody-receives", fmt.Sprintf("median_latency_us_consumer_absent=%d", medA.Microseconds()),
 				fmt.Sprintf("consumer_waiting=%d", medW.Microseconds()), "E", "0", "0", "1", "0", "1", "1", "0", "-1", "0", "0")
 		}
+	}
+	// stress rounds: within about 2 s (thorough 20 s)
+	{
+		rounds, per := 0, 100000
+		limit := 2 * time.Second
+		if e.Thorough() {
+			limit = 20 * time.Second
+		}
+		recvd := 0
+		for t0 := time.Now(); time.Since(t0) < limit && viol < maxViol; rounds++ {
+			v, nrec := stress(per)
+			recvd += nrec
+			if v != "" {
+				viol++
+				e.Case("VIOL", v, fmt.Sprintf("free-running-writer-of-%d-one-byte-writes-against-a-fast-consumer", per),
+					"E", "2", "1", "1", "0", "1", "1", "0", "-1", "0", "0")
+				break
+			}
+		}
+		stats["stress_rounds_of_100000_writes"] = rounds
+		stats["stress_values_received"] = recvd
 	}
 	for range lateDelays {
 		lr := <-lateCh
